@@ -6,8 +6,8 @@ over endpoint x codec x column-name class x value type to one buffer key followe
 i.e. the part of the space where flushes merge batches of different requests.
 
 (M) TLC checks NoPanic on the buffering mechanism (schema signature, schema-change flush, merge)
-    with the two panic sites switched off (holds) and as built (TLC finds the shortest sequence
-    that reaches a panic: a candidate only).
+    as the code is now (both panic sites repaired by 1d2ff04: holds) and, as a negative control,
+    as the code was written before (TLC must find the one-request sequence that reaches a panic).
 (G) every enumerated sequence is sent through the real fiber app of api.NewServer (recover
     middleware included), the real msgpack / line-protocol handlers and a real ArrowBuffer on a
     LocalBackend in a CHILD process, followed by FlushAll on a goroutine without recover (the
@@ -62,10 +62,12 @@ def run(ctx):
         for a in ("Send", "Flush"):
             if fixed.coverage.get(a, (0, 0))[0] == 0:
                 raise InfraError("vacuous model: action %s never fired" % a)
-    asb = ctx.tlc("reqcrash", "ReqCrash", "MC_asbuilt.cfg", allow_violation=True, timeout=900)
+    asb = ctx.tlc("reqcrash", "ReqCrash", "MC_aswritten.cfg", allow_violation=True, timeout=900)  # negative control
+    if asb.violated != "NoPanic":
+        raise InfraError("negative control: TLC did not reject the as-written model (MC_aswritten.cfg)")
     ctx.note("tlc_model_check", {
-        "repaired_design": {"distinct": fixed.distinct, "generated": fixed.generated, "depth": fixed.depth, "invariant": "NoPanic", "holds": True},
-        "as_built": {"violated": asb.violated, "counterexample": [l.strip() for l in asb.counterexample if "seq =" in l or l.strip().startswith("[ep")][-3:]}})
+        "current_code": {"distinct": fixed.distinct, "generated": fixed.generated, "depth": fixed.depth, "invariant": "NoPanic", "holds": True},
+        "negative_control_as_written_before_1d2ff04": {"violated": asb.violated, "counterexample": [l.strip() for l in asb.counterexample if "seq =" in l or l.strip().startswith("[ep")][-3:]}})
     g1 = ctx.tlc("reqcrash", "ReqCrash", "Gen_single.cfg", timeout=900, workers=4)
     g2 = ctx.tlc("reqcrash", "ReqCrash", "Gen_pairs.cfg", timeout=1500, workers=4)
     singles, pairs = _seqs(g1.traces), _seqs(g2.traces)
